@@ -46,6 +46,9 @@ var c15PipelineHeaders = map[string]string{
 	"X-Mixed-Case":  "pipeline",
 	"X-Api-Key":     "k-{{ .Request.Method }}",
 	"X-Groups":      "{{ if false }}never{{ end }}", // a pipeline header whose value is empty for this subject
+	// names written the way YAML authors write them: not in canonical form
+	"x-lower-name": "pipeline-lower",
+	"X-UPPER-NAME": "pipeline-upper",
 }
 
 func c15RuleSets(up string) []*rconfig.RuleSet {
@@ -237,7 +240,8 @@ func TestC15(t *testing.T) {
 	}
 	rng := r.Stream("c15")
 	n := r.Pick(3000, 100000)
-	methods := []string{"GET", "POST", "PUT", "DELETE", "PATCH", "OPTIONS", "HEAD"}
+	// the method is a case-sensitive token (RFC 9110, 9.1) and reaches the upstream as sent
+	methods := []string{"GET", "POST", "PUT", "DELETE", "PATCH", "OPTIONS", "HEAD", "get", "Patch", "PURGE", "query", "M-SEARCH"}
 	bigBody := strings.Repeat("0123456789abcdef", 65536) // 1 MiB
 	for i := 0; i < n && r.Violations() < 60; i++ {
 		in := insts[rng.IntN(len(insts))]
